@@ -11,6 +11,10 @@ def spec(tier, seed):
              "run": lambda f, v, w: _mir.vc_applied_patches_recorded(f, v, w)},
             {"name": "main: status 0 only for Ok(true)", "function": "main", "target": "bin",
              "run": lambda f, v, w: _mir.vc_main_exit_status(f, v, w)},
+            {"name": "parallel::apply_patches: Ok only after the workers' errors were checked and there was none", "function": "parallel::apply_patches", "target": "bin",
+             "run": lambda f, v, w: _mir.vc_worker_errors_checked(f, v, w)},
+            {"name": "save_modified_file: Ok for a live file only after it was created and written", "function": "save_modified_file", "target": "bin",
+             "run": lambda f, v, w: _mir.vc_save_writes_content(f, v, w)},
             {"name": "save_applied_patches: the buffered writer is flushed explicitly before Ok", "function": "save_applied_patches", "target": "bin",
              "run": lambda f, v, w: _mir.vc_bufwriter_flushed(f, v, w, r"^save_applied_patches$", "c18f1")},
             {"name": "rollback_and_save_rej_files: the buffered writer is flushed explicitly before Ok", "function": "rollback_and_save_rej_files", "target": "bin",
